@@ -17,9 +17,26 @@ ASSUMPTIONS = {
 
 UNITS = {
     'unitA': {'spec': 'unitA.vrs'},
+    'unitC': {'spec': 'unitC.vrs', 'expanded': True, 'threads': 16, 'timeout': 2400},
 }
 
 PROPS = {
+    'C03': {
+        'units': ['unitC'],
+        'assumptions': ['A-deps', 'A-arena', 'A-std', 'A-iter', 'A-float', 'A-arith', 'A-path', 'A-extract', 'A-verus'],
+        'rules': 'R1 R2 R3 (one obligation per match arm) R6 R7 (emit arms lifted to spec fns, exec arms re-verified against them); panic mode: absent',
+        'claimed': [
+            'for every operator arm of append_instruction (all immediates symbolic): the instruction appended is emitted by Emit::visit_instr as mirror(op) under the renumbering sigma (same opcode, constants bit for bit, alignment/offset/lane/shuffle immediates, every index operand through the two index maps, labels through the block stack)',
+            'unreachable code and nop elision: nothing is appended in an unreachable frame, Nop appends nothing',
+            'block structure: Block/Loop/If/Else/End create, close and attach sequences as the input nests them; sequence type denotes the block type signature; emit writes block/loop/if/else/end around sequences',
+            'memarg: align round trip (log2 of 1<<a), 64-bit offset kept',
+        ],
+        'unclaimed': [
+            'order of instructions inside a body beyond the per-step contracts (needs the traversal theorem, unit F stretch)',
+            'BrTable parse arm (iterator over BrTableTargets) and Emit BrTable arm / branch_target (iterator adapter chains): assumed (A-iter), not verified',
+            'block_param_tys / block_result_tys: assumed contract',
+        ],
+    },
     'C17': {
         'units': ['unitA'],
         'assumptions': ['A-arena', 'A-std', 'A-extract', 'A-verus'],
